@@ -52,7 +52,11 @@ int em_has_cache(const struct em *m) { return m->cache >= 0; }
 
 static void incr_count(struct em *m, const struct em_ev *e)
 {
-	if (!e->internal) { m->count++; if (m->count > m->count_max) m->count_max = m->count; }
+	if (!e->internal) {
+		m->count++;
+		if (m->count > m->count_max) m->count_max = m->count;
+		if (m->count > m->count_max_hi) m->count_max_hi = m->count;
+	}
 }
 static void decr_count(struct em *m, const struct em_ev *e) { if (!e->internal) m->count--; }
 static void incr_active(struct em *m) { m->nactive++; if (m->nactive > m->nactive_max) m->nactive_max = m->nactive; }
@@ -301,13 +305,22 @@ int em_max_events(struct em *m, unsigned mask, int clear)
 	int r = 0;
 	if (mask & EM_COUNT_ACTIVE) { r += m->nactive_max; if (clear) m->nactive_max = 0; }
 	if (mask & EM_COUNT_VIRTUAL) { r += m->virt_max; if (clear) m->virt_max = 0; }
-	if (mask & EM_COUNT_ADDED) { r += m->count_max; if (clear) m->count_max = 0; }
+	if (mask & EM_COUNT_ADDED) { r += m->count_max; if (clear) m->count_max = m->count_max_hi = 0; }
 	return r;
 }
+/* The running maximum of COUNT_ADDED depends on the order in which timers with
+ * equal deadlines are expired (each is first removed from its pending sets, then
+ * made active), which Appendix A leaves open.  The model keeps the range of
+ * values any order could have produced; the harness narrows it to the value the
+ * implementation reports. */
+void em_max_added_range(const struct em *m, int *lo, int *hi) { *lo = m->count_max; *hi = m->count_max_hi; }
+void em_max_added_resolve(struct em *m, int v) { if (v >= m->count_max && v <= m->count_max_hi) m->count_max = m->count_max_hi = v; }
 void em_virtual(struct em *m, int delta)
 {
 	m->virt += delta;
-	if (m->virt > m->virt_max) m->virt_max = m->virt;
+	/* pinned: the maxima are raised when a count goes up, never on the way down
+	 * (so after a clear they restart from the next increment) */
+	if (delta > 0 && m->virt > m->virt_max) m->virt_max = m->virt;
 }
 
 int em_common_init(struct em *m, int64_t dur)
@@ -468,25 +481,63 @@ static void dispatch_io(struct em *m)
 	}
 }
 
+/* peak of COUNT_ADDED while expiring a group of tied timers in the order perm[] */
+static int group_peak(const struct em *m, const int *ids, const int *perm, int n, int start)
+{
+	int c = start, peak = 0;          /* only values reached by an increment count */
+	for (int k = 0; k < n; k++) {
+		const struct em_ev *e = &m->ev[ids[perm[k]]];
+		if (e->internal) continue;
+		if (!(e->active || e->later)) { c -= e->timeout + e->inserted; c += 1; if (c > peak) peak = c; }
+		else c -= 1;                       /* only its timeout membership goes away */
+	}
+	return peak;
+}
+static void group_peaks(const struct em *m, const int *ids, int n, int *best, int *worst)
+{
+	int perm[8], cnt[8] = { 0 }, i = 0;
+	for (int k = 0; k < n; k++) perm[k] = k;
+	*best = *worst = group_peak(m, ids, perm, n, m->count);
+	while (i < n) {                        /* Heap's algorithm */
+		if (cnt[i] < i) {
+			int a = (i & 1) ? cnt[i] : 0, t = perm[a], p;
+			perm[a] = perm[i]; perm[i] = t;
+			p = group_peak(m, ids, perm, n, m->count);
+			if (p < *best) *best = p;
+			if (p > *worst) *worst = p;
+			cnt[i]++; i = 0;
+		} else { cnt[i] = 0; i++; }
+	}
+}
+
 static void timeout_process(struct em *m)
 {
-	int64_t now = gettime(m), prev = 0;
-	int have_prev = 0;
-	uint32_t tie = 0;
+	int64_t now = gettime(m);
 	for (;;) {
-		int best = -1;
+		int ids[8], n = 0, best = -1, lo0 = m->count_max, hi0 = m->count_max_hi, pbest, pworst;
+		uint32_t tie;
 		for (int i = 0; i < EM_NEV; i++) {
 			const struct em_ev *e = &m->ev[i];
 			if (e->used && e->timeout && e->common < 0 && (best < 0 || e->deadline < m->ev[best].deadline)) best = i;
 		}
 		if (best < 0 || m->ev[best].deadline > now) break;
-		if (!have_prev || m->ev[best].deadline != prev) tie = ++m->tie_serial;   /* equal deadlines: either order */
-		prev = m->ev[best].deadline; have_prev = 1;
-		/* an event that is not active is first removed from all pending sets;
-		 * persistence is re-established when it runs */
-		if (!(m->ev[best].active || m->ev[best].later)) del_nolock(m, best);
-		else remove_timeout(m, best);
-		active_nolock(m, best, EM_TIMEOUT, 1, tie);
+		/* all timers with this deadline: either order (one tie group) */
+		for (int i = 0; i < EM_NEV && n < 8; i++) {
+			const struct em_ev *e = &m->ev[i];
+			if (e->used && e->timeout && e->common < 0 && e->deadline == m->ev[best].deadline) ids[n++] = i;
+		}
+		group_peaks(m, ids, n, &pbest, &pworst);
+		tie = ++m->tie_serial;
+		for (int k = 0; k < n; k++) {
+			int id = ids[k];
+			/* an event that is not active is first removed from all pending
+			 * sets; persistence is re-established when it runs */
+			if (!(m->ev[id].active || m->ev[id].later)) del_nolock(m, id);
+			else remove_timeout(m, id);
+			active_nolock(m, id, EM_TIMEOUT, 1, tie);
+		}
+		m->count_max = lo0 > pbest ? lo0 : pbest;
+		m->count_max_hi = hi0 > pworst ? hi0 : pworst;
 	}
 }
 
@@ -774,7 +825,7 @@ uint64_t em_canon(const struct em *m, uint64_t h)
 	h = hq(m, h, &m->later, 0);
 	h = hx(h, (uint64_t)m->nctl);
 	for (int c = 0; c < EM_NCTL; c++) { h = hq(m, h, &m->ctlq[c], 0); h = hx(h, (uint64_t)m->ctl_dur[c]); }
-	h = hx(h, (uint64_t)m->count); h = hx(h, (uint64_t)m->count_max); h = hx(h, (uint64_t)m->nactive);
+	h = hx(h, (uint64_t)m->count); h = hx(h, (uint64_t)m->count_max); h = hx(h, (uint64_t)m->count_max_hi); h = hx(h, (uint64_t)m->nactive);
 	h = hx(h, (uint64_t)m->nactive_max); h = hx(h, (uint64_t)m->virt); h = hx(h, (uint64_t)m->virt_max);
 	h = hx(h, (uint64_t)(m->term | m->brk << 1 | m->cont << 2 | m->running << 3));
 	h = hx(h, (uint64_t)m->running_pri); h = hx(h, (uint64_t)m->ndeferred); h = hx(h, (uint64_t)m->current);
